@@ -272,3 +272,102 @@ func TestC10Flatten(t *testing.T) {
 }
 
 func init() { reg("C10.flat", checkC10Flat) }
+
+// ---- long chains, names that differ only in case ------------------------------------------------------
+
+type C10ScaleCase struct {
+	Levels int  `json:"levels"` // templates in the chain
+	Parent bool `json:"parent"` // every override calls parent()
+	Rel    bool `json:"rel"`    // parents named relative to the child ("./t<i>")
+}
+
+// checkC10Scale: a chain of Levels templates; t0 is the layout with blocks a (overridden at every
+// level), b (overridden at odd levels) and c (never overridden). Expected text computed directly.
+func checkC10Scale(c C10ScaleCase) error {
+	tm := map[string]string{"d/t0": "[{% block a %}A0{% endblock %}|{% block b %}B0{% endblock %}|{% block c %}C0{{ v }}{% endblock %}]"}
+	wantA, wantB := "A0", "B0"
+	for i := 1; i < c.Levels; i++ {
+		parent := fmt.Sprintf("'d/t%d'", i-1)
+		if c.Rel {
+			parent = fmt.Sprintf("'./t%d'", i-1)
+		}
+		src := "{% extends " + parent + " %}"
+		if c.Parent {
+			src += fmt.Sprintf("{%% block a %%}a%d({{ parent() }}){%% endblock %%}", i)
+			wantA = fmt.Sprintf("a%d(%s)", i, wantA)
+		} else {
+			src += fmt.Sprintf("{%% block a %%}a%d{%% endblock %%}", i)
+			wantA = fmt.Sprintf("a%d", i)
+		}
+		if i%2 == 1 {
+			src += fmt.Sprintf("{%% block b %%}b%d{{ v }}{%% endblock %%}", i)
+			wantB = fmt.Sprintf("b%dV", i)
+		}
+		tm[fmt.Sprintf("d/t%d", i)] = src + " outside "
+	}
+	want := "[" + wantA + "|" + wantB + "|C0V]"
+	r := render(newEngine(tm), fmt.Sprintf("d/t%d", c.Levels-1), map[string]interface{}{"v": "V"})
+	if r.Failed() || r.Out != want {
+		return fmt.Errorf("a chain of %d templates (parent()=%v, relative names=%v) renders %s, want %s", c.Levels, c.Parent, c.Rel, trunc(fmt.Sprint(r)), q(trunc(want)))
+	}
+	return nil
+}
+
+type C10CaseNames struct {
+	Which int `json:"which"`
+}
+
+var c10CaseNameSets = []struct {
+	tm   map[string]string
+	want string
+}{
+	{map[string]string{"base": "<{% block Title %}T1{% endblock %}|{% block title %}t1{% endblock %}>", "main": "{% extends 'base' %}{% block title %}x{% endblock %}"}, "<T1|x>"},
+	{map[string]string{"base": "<{% block content %}c1{% endblock %}>", "main": "{% extends 'base' %}{% block Content %}X{% endblock %}"}, "<c1>"},
+	{map[string]string{"base": "<{% block Row %}R{% block row %}r{% endblock %}{% endblock %}>", "main": "{% extends 'base' %}{% block row %}x{% endblock %}"}, "<Rx>"},
+	{map[string]string{"base": "<{% block Side %}S1{% endblock %}|{% block side %}s2{% endblock %}>", "mid": "{% extends 'base' %}{% block side %}m({{ parent() }}){% endblock %}",
+		"main": "{% extends 'mid' %}{% block Side %}c({{ parent() }}){% endblock %}"}, "<c(S1)|m(s2)>"},
+	{map[string]string{"base": "<{% block NAV %}N{% endblock %}{% block nav %}n{% endblock %}{% block Nav %}M{% endblock %}>", "main": "{% extends 'base' %}{% block Nav %}{% endblock %}"}, "<Nn>"},
+	{map[string]string{"base": "<{% block a_b %}1{% endblock %}{% block a_B %}2{% endblock %}>", "main": "{% extends 'base' %}{% block a_B %}x{{ parent() }}{% endblock %}"}, "<1x2>"},
+}
+
+func checkC10CaseNames(c C10CaseNames) error {
+	s := c10CaseNameSets[c.Which%len(c10CaseNameSets)]
+	r := render(newEngine(s.tm), "main", nil)
+	if r.Failed() || r.Out != s.want {
+		return fmt.Errorf("blocks whose names differ only in letter case are different blocks: got %v, want %s; templates:%s", r, q(s.want), showSources(s.tm))
+	}
+	return nil
+}
+
+func TestC10Scale(t *testing.T) {
+	r := NewRec(t, "C10", "exhaustive: extends chains of 2..20, 33, 64, 100 templates (every level overrides one block, odd levels a second, a third stays default) with and without parent(), with absolute and relative parent names; six template sets whose block names differ only in letter case; expected text computed directly; non-trivial = more than 3 templates or case-variant names")
+	defer r.Flush()
+	r.SetExhaustive()
+	levels := []int{33, 64, 100}
+	for n := 2; n <= 20; n++ {
+		levels = append(levels, n)
+	}
+	for _, n := range levels {
+		for _, par := range []bool{false, true} {
+			for _, rel := range []bool{false, true} {
+				c := C10ScaleCase{Levels: n, Parent: par, Rel: rel}
+				r.Case(fmt.Sprint(c), n > 3, c)
+				if err := checkC10Scale(c); err != nil {
+					r.FailEnumKey(t, "C10.scale", fmt.Sprint(par, rel), c, err)
+				}
+			}
+		}
+	}
+	for i := range c10CaseNameSets {
+		c := C10CaseNames{Which: i}
+		r.Case(fmt.Sprint("names", i), true, c10CaseNameSets[i].tm)
+		if err := checkC10CaseNames(c); err != nil {
+			r.FailEnum(t, "C10.names", c, err)
+		}
+	}
+}
+
+func init() {
+	reg("C10.scale", checkC10Scale)
+	reg("C10.names", checkC10CaseNames)
+}
